@@ -35,6 +35,9 @@ func configFor(k int, rng *sim.Rng) Config {
 	c.CuspV1 = []Frac{fr(7, 10), fr(3, 5), fr(1, 2)}[(k/2)%3]
 	c.Interest = c.StabFee.Num > 0
 	c.Decoy = rng.Intn(2) == 1
+	if rng.Intn(3) == 0 {
+		c.FixedOutPrice = 2
+	}
 	if rng.Intn(2) == 1 { // about every other run: a collector that can cover the whole debt of any auction (loss close-outs that draw more than the shortfall succeed too)
 		c.CollectorFund = 1000 * c.DecS
 	}
@@ -319,8 +322,11 @@ func (w *World) randomAct(rng *sim.Rng) Act {
 		a.U = ""
 		a.D = []string{"ucm", "uat", "ust", "uus", "ucm", "uat"}[rng.Intn(6)]
 		a.Y = []int64{1, 2, 3, 4, 6}[rng.Intn(5)]
-		if a.D == "ust" || a.D == "uus" {
+		if a.D == "uus" {
 			a.Y = 1
+		}
+		if a.D == "ust" { // the debt asset's own feed moves too (a product with a FIXED debt price must not look at it)
+			a.Y = []int64{1, 1, 2, 1, 3}[rng.Intn(5)]
 		}
 		a.On = rng.Intn(12) != 0
 	case "Block":
